@@ -62,7 +62,16 @@ class ServerBox(object):
             else:
                 addr = ("127.0.0.1", 0)
             cls = PooledJSONRPCServer if leg.endswith("pooled") else SimpleJSONRPCServer
+            old = None
+            if unix:
+                # hand-over of the socket path inside one process: an earlier server object bound it, its file was
+                # removed (as the documentation tells the user to), the server of this leg binds the path again, and
+                # only then is the earlier object closed
+                old = cls(addr, **kw)
+                os.unlink(self.path)
             self.d = cls(addr, **kw)
+            if old is not None:
+                old.server_close()
             self.url = ("unix+http://" + addr) if unix else "http://127.0.0.1:%d/" % self.d.server_address[1]
             self.thread = threading.Thread(target=self.d.serve_forever, kwargs={"poll_interval": 0.01}, daemon=True)
             self.thread.start()
@@ -220,6 +229,23 @@ def run_case(c, box, rnd, counter):
                     del box.log[:], box.wire_req[:], box.wire_resp[:]
                 target = getattr(prefix, parts[-1])
             else:
+                if rnd.random() < 0.3:
+                    # the same proxy has been used before for the same name, the other way round (a notification
+                    # before the call under test, a call before the notification under test)
+                    other = resolve(p if job["notify"] else p._notify, job["call"])
+                    try:
+                        other(**job["kwargs"]) if job["kw"] else other(*job["args"])
+                    except BaseException:  # noqa
+                        pass
+                    deadline = time.time() + 1.0
+                    while time.time() < deadline:
+                        with box.lock:
+                            if len(box.wire_resp) >= len(hist.responses) and box.log:
+                                break
+                        time.sleep(0.001)
+                    hist.clear()
+                    with box.lock:
+                        del box.log[:], box.wire_req[:], box.wire_resp[:]
                 target = resolve(p._notify if job["notify"] else p, job["call"])
             v = target(**job["kwargs"]) if job["kw"] else target(*job["args"])
             outcome["single"] = enc(v)
